@@ -412,6 +412,7 @@ def replay(c):
 
 
 def run(rep):
+    tok.VALIDATE[0] = replay_fn
     L = loader.load()
     core = L.modules["core"]
     rep.hashes = L.hashes
